@@ -24,3 +24,34 @@ CLAIMS["C16"] = {
     "note": "Lean kernel; standard axioms; partial: exactness on (1229, 2^64) rests on the published exhaustive computation (Sorenson-Webster), stated as a hypothesis not an axiom; int(math.log(n,2)) is a parameter supplied by the harness.",
     "technique": "Lean 4 proof over source-translated definitions + model/implementation correspondence",
 }
+_T = "Lean 4 proof over source-translated definitions + model/implementation correspondence"
+CLAIMS["C20"] = {
+    "text": "Theorems about the instruction lists regenerated from _rwlock.py (Generated/RWLock.lean), for ANY number of threads, any finite lists of reader/writer rounds and any schedule: rw_inv (counting invariant preserved by every transition), count_simulation (thread level <-> counting abstraction), writers_exclusive, readers_shared (+ a reachable two-readers-inside state), deadlock_free, all_schedules_terminate (every maximal schedule ends with every acquire returned: no lost wake-up), reusable, release_never_raises. Tie: translator + the model's visible-step graph for up to 3 readers + 2 writers covered by schedules replayed on the REAL class under a deterministic scheduler, compared after every step; search: exhaustive state-hashed exploration of the real class.",
+    "note": "Lean kernel; standard axioms; threading.Lock semantics (acquire blocks while held, any thread may release) is the modelled primitive; starvation-freedom under unfair infinite schedules is not claimed (threading.Lock promises no fairness): 'every acquire eventually returns provided holders release' is read as deadlock-freedom + termination of every maximal schedule of finite programs.",
+    "technique": _T + " (schedules replayed on the real class)",
+}
+CLAIMS["C03"] = {
+    "text": "Theorems over Model/Ecdsa.lean whose integer expressions and tests are definitions regenerated from ecdsa.py/keys.py (Generated/EcdsaInt.lean): sign_eq_standard (r = x(kG) mod n, s = k^-1 (e + r d) mod n, RSZeroError iff r = 0 or s = 0, blinding irrelevant), truncate_eq_leftmost_bits (leftmost min(8 len, bitlen n) bits), truncate_disallowed (BadDigestError iff longer than the order), pubkey_eq_dG, and the same as statements about the executable instance over the real point model (…_on_curve). Tie: translator + correspondence on 17 curves x boundary d, k x digest shapes; search: textbook reference.",
+    "note": "Lean kernel; standard axioms; hypotheses: p, n prime and the generator denotes a point of order n (OnCurve.Matches) - SEC2/FIPS facts, order of G machine-checked per curve where Props/Named is built; point layer discharged from C06/C07 theorems (N2T holds in <G> because n is odd).",
+    "technique": _T,
+}
+CLAIMS["C02"] = {
+    "text": "verifies_iff_fips: for all integers e, r, s the model of Public_key.verifies returns True iff 1 <= r, s <= n-1, R = (e/s)G + (r/s)Q is not the identity and x(R) mod n = r; verify_digest_outcomes: for every byte string offered as a signature the outcome is True, BadSignatureError or BadDigestError (never False, never another exception), True iff decoding succeeds and the FIPS predicate holds; both also for the executable instance over the real point model. The range tests and u1, u2 computations are regenerated from ecdsa.py, so e.g. `r < 0` for `r < 1` breaks the proof. Tie: translator + correspondence incl. forged pairs (0, n, n+1, 2^bitlen, r = -e/d making R infinity); search: exhaustive (e, r, s) and all keys on toy prime-order curves against an independent FIPS implementation.",
+    "note": "Lean kernel; standard axioms; hypotheses p, n prime, generator of order n; a public key outside <G> can only enter through known finding K2 (cofactor-4 curve); decoder error kinds for DER come from C12's theorems.",
+    "technique": _T,
+}
+CLAIMS["C08"] = {
+    "text": "from_string_accepts_iff_partial: a byte string is accepted iff it has an exact length with matching prefix, x, y < p, the (generated) curve equation holds, the parity rule holds and the subgroup test passes; the accepted key is the encoded point; every rejection is MalformedPointError; same for from_public_point. Partial: the subgroup clause is the code's own test n*P == INFINITY, which equals membership in <G> only without points of order 2 (known finding K2 on SECP112r2). Tie: curve table and contains_point regenerated from the source, correspondence on all lengths/prefixes/aliased coordinates/non-residues/parities/SPKI mutations; search: exhaustive truth table on toy curves with an independent validator.",
+    "note": "Lean kernel; standard axioms; hypotheses p odd prime; square-root contract discharged by C15.sqrt_spec; K2 open (points of order 2 and 2n accepted on the cofactor-4 curve) is printed as KNOWN-FINDING.",
+    "technique": _T,
+}
+CLAIMS["C09"] = {
+    "text": "On the curve table regenerated from curves.py (decide +kernel): OIDs and names pairwise distinct, find_curve inverse of the table, G on the curve, discriminant non-zero, derived lengths and encoded OIDs as the code computes them; to_string fixed length and from_string∘to_string round trips for all four encodings on every table curve for both key types; DER/PEM container theorems as listed in Props/C09.lean. Tie: translator for tables + correspondence of every serialiser/loader byte-for-byte; search: independent strict TLV builder/parser for SPKI / ECPrivateKey / PKCS#8.",
+    "note": "Lean kernel; standard axioms; base64 decode is a parameter of the model (CPython's lenient decoder is implemented in the driver and compared by correspondence); dG has reduced coordinates by C07.",
+    "technique": _T,
+}
+CLAIMS["C10"] = {
+    "text": "Totality theorems (f bs = ok or error in the documented set) for the key loaders as listed in Props/C10.lean: IndexError/TypeError/ValueError/binascii.Error/AssertionError are unreachable in the model; termination is the totality of the Lean definitions. Signature decoders and verify_digest are covered by C12/C02 theorems. Tie: correspondence on a mutation stream (truncate, substitute, insert, delete, bit-flip, boundary bytes, oversized lengths, nesting, empty) over valid encodings of every container for all 17 curves; search: every escaping exception class is recorded by MRO, anything undocumented is a violation (F6/F7 witnesses in the corpus).",
+    "note": "Lean kernel; standard axioms; hand-written model of keys.py loaders tied by correspondence; b64decode may only fail with binascii.Error (parameter).",
+    "technique": "Lean 4 proof over an executable model + model/implementation correspondence",
+}
